@@ -83,6 +83,10 @@ mod types;
 #[path = "../../../verif/c17.rs"]
 pub(crate) mod verif_c17;
 
+#[cfg(litep2p_verif)]
+#[path = "../../../verif/c16.rs"]
+pub(crate) mod verif_c16;
+
 mod schema {
     pub(super) mod kademlia {
         include!(concat!(env!("OUT_DIR"), "/kademlia.rs"));
@@ -835,6 +839,8 @@ impl Kademlia {
 
     /// Handle next query action.
     async fn on_query_action(&mut self, action: QueryAction) -> Result<(), (QueryId, PeerId)> {
+        #[cfg(litep2p_verif)]
+        verif_c16::trace_action(&action);
         match action {
             QueryAction::SendMessage { query, peer, .. } => {
                 // This action is used for `FIND_NODE`, `GET_VALUE` and `GET_PROVIDERS` queries.
@@ -1031,6 +1037,8 @@ impl Kademlia {
                     self.disconnect_peer(peer, Some(query)).await;
                 }
             }
+            #[cfg(litep2p_verif)]
+            verif_c16::snapshot(&self);
 
             tokio::select! {
                 event = self.service.next() => match event {
@@ -1074,6 +1082,8 @@ impl Kademlia {
                 },
                 context = self.executor.next() => {
                     let QueryContext { peer, query_id, result } = context.unwrap();
+                    #[cfg(litep2p_verif)]
+                    verif_c16::trace_result(&peer, &query_id, &result);
 
                     match result {
                         QueryResult::SendSuccess { substream } => {
